@@ -33,7 +33,7 @@ from ..evidence import Run, canon_hash
 
 PID = "C15"
 SHARDS = {"quick": 6, "thorough": 16}
-N = {"quick": 1400, "thorough": 80000}
+N = {"quick": 1400, "thorough": 60000}
 SHARD_TIMEOUT = {"quick": 900, "thorough": 2400}
 
 
